@@ -347,6 +347,18 @@ void string_case(i64 len_, i64 code_)
   for (int i = 0; i < len; ++i) vi.push_back(dig(code, i, 3));
   chkk(fcppt::algorithm::split_string(vi, 2) == ref_split(vi, 2), lazy_key("algorithm::split_string|result-vector-of-int", cl), [&] { return "split_string(vector<int> of \"" + s + "\", 2) wrong"; });
 }
+void empty_range_join_case(i64 d_)
+{
+  static char const *const delims[] = {"", ",", "::"};
+  std::string const delim = delims[mod(d_, 3)];
+  count(true);
+  std::vector<std::string> const none;
+  std::list<std::string> const none_list;
+  if (!fcppt::algorithm::join_strings(none, delim).empty() || !fcppt::algorithm::join_strings(none_list, delim).empty())
+    fail("algorithm::join_strings|result|empty-range", "join_strings of an empty range with the delimiter \"" + delim + "\" is not empty");
+  std::vector<std::wstring> const wnone;
+  if (!fcppt::algorithm::join_strings(wnone, std::wstring(delim.begin(), delim.end())).empty()) fail("algorithm::join_strings|result|empty-range-wide", "wide join_strings of an empty range is not empty");
+}
 Reg const r_strings{
     C16_SEC("alg_split_join_strings"), Kind::exhaustive, "split_string / join_strings: empty string, or length >= 2 with the delimiter at an end or two adjacent delimiters",
     [] {
@@ -357,12 +369,20 @@ Reg const r_strings{
           cur2(len, code);
           string_case(len, code);
         }
-      // join_strings of an empty range
-      std::vector<std::string> const none;
-      if (!fcppt::algorithm::join_strings(none, std::string(",")).empty()) fail("algorithm::join_strings|result|empty-range", "join_strings of an empty range is not empty");
+      // join_strings of an empty range (a case of its own: len code 99, delimiter 0..2)
+      for (i64 d = 0; d < 3; ++d)
+      {
+        cur2(99, d);
+        empty_range_join_case(d);
+      }
     },
-    [](Ints const &c) { string_case(c.at(0), c.at(1)); },
-    [](Ints const &c) { return "split/join of \"" + text_of<char>(static_cast<int>(mod(c.at(0), abs_max + 1)), mod(c.at(1), ipow(3, static_cast<int>(mod(c.at(0), abs_max + 1))))) + "\""; }};
+    [](Ints const &c) {
+      if (c.at(0) == 99) empty_range_join_case(c.at(1));
+      else string_case(c.at(0), c.at(1));
+    },
+    [](Ints const &c) {
+      if (c.at(0) == 99) return std::string("join_strings of an empty range with delimiter #") + std::to_string(mod(c.at(1), 3)) + " of {\"\", \",\", \"::\"}";
+      return "split/join of \"" + text_of<char>(static_cast<int>(mod(c.at(0), abs_max + 1)), mod(c.at(1), ipow(3, static_cast<int>(mod(c.at(0), abs_max + 1))))) + "\""; }};
 
 // ------------------------------------------------------------------------------------------------
 // sequence_iteration / map_iteration / map_iteration_second: remove the k-th visited element iff bit k
